@@ -190,11 +190,10 @@ Proof.
   set (s1 := if no_traceback (cls_of e) then s else report_traceback s) in *.
   constructor; cbn [log excs stack attrs force uh tr add_tr set_tr]; try assumption.
   - rewrite calls_app, calls_handlers by reflexivity. now rewrite app_nil_r.
-  - unfold proj. cbn [dets tbgen cells onexc tr add_tr set_tr]. rewrite hcalls_app, hcalls_handlers.
-    cbn [prun fold_left papply].
-    assert (P1 : proj s1 = if no_traceback (cls_of e) then proj s else d_tb (proj s)).
+  - assert (P1 : proj s1 = if no_traceback (cls_of e) then proj s else d_tb (proj s)).
     { rewrite Q8. destruct (no_traceback (cls_of e)); reflexivity. }
-    rewrite <- P1. reflexivity.
+    cbn [prun fold_left papply]. rewrite <- P1.
+    unfold proj at 1. cbn [dets tbgen cells onexc tr add_tr set_tr]. rewrite hcalls_app, hcalls_handlers. reflexivity.
 Qed.
 
 Definition got_step (s : st) (x : exc) : st :=
